@@ -22,6 +22,8 @@ package main
 import (
 	"fmt"
 	"math/rand"
+	"os"
+	"regexp"
 	"runtime"
 	"sort"
 	"strconv"
@@ -39,21 +41,108 @@ type c33Hook interface {
 }
 
 var (
-	c33hook      c33Hook
-	c33hookTried bool
-	c33genRan    bool
-	c33helpers   = &sync.WaitGroup{} // compiled goroutines started by the scenario helpers (one group per scenario)
-	c33yieldSeed uint64
-	c33yieldCtr  uint64
-	c33curScn    string
+	c33hook       c33Hook
+	c33hookTried  bool
+	c33genRan     bool
+	c33helpers    = &sync.WaitGroup{} // compiled goroutines started by the scenario helpers (one group per scenario)
+	c33yieldSeed  uint64
+	c33yieldCtr   uint64
+	c33curScn     string
 	c33scnForeign bool
 	c33timeouts   int
 )
+
+// ---- frame pools (hook of C06, if present): a recycled frame must come out of the pool it was put into ----
+
+type c33FrameHook interface {
+	VerifC06(sink func(kind int, run *fast.Run, env *fast.Env, outer *fast.Env, a int, b int, flag bool), poison bool)
+}
+
+var c33frames struct {
+	sync.Mutex
+	pooledIn map[*fast.Env]*fast.Run // frame -> Run whose pool holds it
+	live     map[*fast.Env]bool      // frame handed out and not yet released
+	foreign  int                     // frames popped from another Run's pool
+	twice    int                     // frames handed out while still live
+	first    string
+}
+
+func c33frameSink(kind int, run *fast.Run, env *fast.Env, outer *fast.Env, a int, b int, flag bool) {
+	f := &c33frames
+	f.Lock()
+	defer f.Unlock()
+	if f.pooledIn == nil {
+		return
+	}
+	switch kind {
+	case 1, 2, 3: // allocation; flag = taken from run's pool
+		if flag {
+			if r, ok := f.pooledIn[env]; ok && r != run {
+				f.foreign++
+				if f.first == "" {
+					f.first = fmt.Sprintf("frame %p was put into the pool of Run %p and is handed out from the pool of Run %p", env, r, run)
+				}
+			}
+			if f.live[env] {
+				f.twice++
+				if f.first == "" {
+					f.first = fmt.Sprintf("frame %p handed out from the pool of Run %p while it is still in use", env, run)
+				}
+			}
+			delete(f.pooledIn, env)
+		}
+		f.live[env] = true
+	case 4: // freeEnv entered
+		delete(f.live, env)
+	case 5: // stored in run's pool
+		f.pooledIn[env] = run
+	}
+}
+
+func c33framesStart(ir *fast.Interp) bool {
+	var x interface{} = ir
+	h, ok := x.(c33FrameHook)
+	if !ok {
+		return false
+	}
+	c33frames.Lock()
+	c33frames.pooledIn = map[*fast.Env]*fast.Run{}
+	c33frames.live = map[*fast.Env]bool{}
+	c33frames.foreign, c33frames.twice, c33frames.first = 0, 0, ""
+	c33frames.Unlock()
+	h.VerifC06(c33frameSink, false)
+	return true
+}
+
+func c33framesStop(ir *fast.Interp) string {
+	var x interface{} = ir
+	if h, ok := x.(c33FrameHook); ok {
+		h.VerifC06(nil, false)
+	}
+	f := &c33frames
+	f.Lock()
+	defer f.Unlock()
+	f.pooledIn, f.live = nil, nil
+	switch {
+	case f.foreign > 0:
+		return fmt.Sprintf("foreign-pool %d (%s)", f.foreign, f.first)
+	case f.twice > 0:
+		return fmt.Sprintf("live-twice %d (%s)", f.twice, f.first)
+	}
+	return "ok"
+}
+
+var c33ctlInterp *fast.Interp
+var c33raceText []string
+
+// functions that implement the registry protocol and the per-goroutine frame pool
+var c33reRegistry = regexp.MustCompile(`^(fast\.\(\*IrGlobals\)\.glsGet|fast\.\(\*Run\)\.(glsStore|glsDel|getRun4Goid|new)|fast\.(newEnv4Func|NewEnv|newEnv)|fast\.\(\*Env\)\.(freeEnv|FreeEnv|freeEnv4Func)|fast\.\(\*Comp\)\.Go\.func[\d.]+|fast\.newTopInterp|atomic\.\(\*SpinLock\)\.\w+|gls\.\w+)$`)
 
 func c33getHook() c33Hook {
 	if !c33hookTried {
 		c33hookTried = true
 		ir := newQuietInterp()
+		c33ctlInterp = ir
 		if h := c33hookOf(ir); h != nil {
 			c33hook = h
 			h.VerifC33Ctl("yield", func(site int) {
@@ -82,6 +171,8 @@ func spawnIn(n int) { for i := 0; i < n; i++ { wg.Add(1); go func(j int) { defer
 func producer(k int) { defer wg.Done(); fch <- mk(k) }
 func consumer(n int) { defer wg.Done(); for i := 0; i < n; i++ { f := <-fch; add(f(i)) } }
 func viaDefer(n int) { defer wg.Done(); add(withDefer(n)) }
+func work(i int, done func()) { if leaf(i%4) != (i%4)*(i%4-1) { panic("leaf returned a wrong value") }; done() }
+func spawn(n int, done func()) { for i := 0; i < n; i++ { go work(i, done) } }
 `
 
 // c33env is one interpreter plus the compiled helpers visible to interpreted code.
@@ -139,12 +230,22 @@ func (e *c33env) run(expr *fast.Expr) {
 func c33go(f func()) {
 	done := c33track()
 	go func() {
+		c33sync()
 		defer done()
+		defer c33sync()
 		defer c33hook.VerifC33Ctl("exit", nil)
 		defer c33recover()
 		f()
 	}()
 }
+
+// The runtime gives the identity (g) of a finished goroutine to a new one, which then legitimately finds and uses the
+// Run the dead goroutine registered.  The race detector knows no happens-before edge between the end of one goroutine
+// and the start of an unrelated one, so every compiled goroutine of the scenarios passes through this atomic counter
+// when it starts and when it ends: ends and later starts are ordered, everything in between stays concurrent.
+var c33epoch int64
+
+func c33sync() { atomic.AddInt64(&c33epoch, 1) }
 
 // c33track registers one more compiled goroutine in the current scenario's group
 func c33track() (done func()) {
@@ -177,7 +278,9 @@ func c33newEnv() *c33env {
 	e.ir.DeclFunc("after", func(ms int, f func()) {
 		done := c33track()
 		time.AfterFunc(time.Duration(ms)*100*time.Microsecond, func() {
+			c33sync()
 			defer done()
+			defer c33sync()
 			defer c33hook.VerifC33Ctl("exit", nil)
 			defer c33recover()
 			f()
@@ -191,7 +294,10 @@ func c33newEnv() *c33env {
 // one top-level statement of a "go" scenario; prod = number of closures still available in fch
 func c33stmt(r *rand.Rand, prod *int) string {
 	k := r.Intn(5)
-	switch r.Intn(11) {
+	switch r.Intn(13) {
+	case 11, 12:
+		// a go statement that captures nothing, immediately followed by a call whose frame may be a recycled one
+		return fmt.Sprintf("wg.Add(1); go worker(%d); add(leaf(%d))", k, k%3+2)
 	case 0:
 		return fmt.Sprintf("wg.Add(1); go func(a int) { defer wg.Done(); add(leaf(a)) }(%d)", k)
 	case 1:
@@ -308,14 +414,19 @@ func c33runScenarioBody(kind string, seed int64, procs, size int) (lines []strin
 		return c33goidScenario(size), []string{"goid"}
 	}
 	h.VerifC33Ctl("start", nil)
+	framesOn := c33framesStart(c33ctlInterp)
+	c10newRaces() // race reports so far belong to nobody
 	var env *c33env
 	var reuse string
+	silent := false
 	done := make(chan struct{})
 	switch kind {
 	case "std":
 		// one interpreter, `size` phases: the creator evaluates a program full of go statements ("go"),
 		// compiled goroutines / time.AfterFunc call interpreted functions ("foreign"), or both at once ("mixed")
 		go func() {
+			c33sync()
+			defer c33sync()
 			defer close(done)
 			defer h.VerifC33Ctl("exit", nil)
 			defer c33recover()
@@ -331,7 +442,9 @@ func c33runScenarioBody(kind string, seed int64, procs, size int) (lines []strin
 					if after && r.Intn(4) == 0 {
 						done := c33track()
 						time.AfterFunc(time.Duration(r.Intn(3))*100*time.Microsecond, func() {
+							c33sync()
 							defer done()
+							defer c33sync()
 							defer h.VerifC33Ctl("exit", nil)
 							defer c33recover()
 							c33calls(rand.New(rand.NewSource(s)), env, f1, f2, f3, k)
@@ -363,12 +476,76 @@ func c33runScenarioBody(kind string, seed int64, procs, size int) (lines []strin
 			}
 		}()
 		<-done
+	case "storm":
+		// registry contention without event logging (the log would dominate): 16 compiled goroutines, each starting
+		// `size` short-lived goroutines in turn, each of which starts 20 interpreted goroutines with go statements and
+		// calls an interpreted function 20 times (lookup-or-create, store, delete and lookups on all CPUs at once).
+		// Oracles: race detector, the Go runtime's concurrent-map check (kills the process), results of the calls,
+		// registry snapshot afterwards.
+		h.VerifC33Ctl("stop", nil)
+		silent = true
+		runtime.GOMAXPROCS(16)
+		var bad int64
+		go func() {
+			c33sync()
+			defer c33sync()
+			defer close(done)
+			defer c33recover()
+			env = c33newEnv()
+			var spawn func(int, func())
+			var leaf func(int) int
+			func() {
+				defer c33recover()
+				spawn = env.ir.ValueOf("spawn").Interface().(func(int, func()))
+				leaf = env.ir.ValueOf("leaf").Interface().(func(int) int)
+			}()
+			if spawn == nil || leaf == nil {
+				env.fail("storm: spawn/leaf not found")
+				return
+			}
+			var outer sync.WaitGroup
+			for sp := 0; sp < 16; sp++ {
+				outer.Add(1)
+				go func() {
+					c33sync()
+					defer c33sync()
+					defer outer.Done()
+					defer c33recover()
+					for k := 0; k < size; k++ {
+						var inner, wg sync.WaitGroup
+						inner.Add(1)
+						wg.Add(20)
+						go func() {
+							c33sync()
+							defer inner.Done()
+							defer c33sync()
+							defer c33recover()
+							spawn(20, wg.Done)
+							for i := 0; i < 20; i++ {
+								if leaf(i%4) != (i%4)*(i%4-1) {
+									atomic.AddInt64(&bad, 1)
+								}
+							}
+						}()
+						inner.Wait()
+						wg.Wait()
+					}
+				}()
+			}
+			outer.Wait()
+		}()
+		<-done
+		if n := atomic.LoadInt64(&bad); n != 0 {
+			lines = append(lines, fmt.Sprintf("error storm: %d interpreted calls returned a wrong value => ERR", n))
+		}
 	case "evalseq":
 		// top-level evaluation by several goroutines, one after the other (F14)
 		keep := r.Intn(2) == 0 // the creator stays alive / exits
 		release := make(chan struct{})
 		creatorDone := c33track()
 		go func() {
+			c33sync()
+			defer c33sync()
 			defer creatorDone()
 			defer h.VerifC33Ctl("exit", nil)
 			defer c33recover()
@@ -387,6 +564,8 @@ func c33runScenarioBody(kind string, seed int64, procs, size int) (lines []strin
 			starts[i] = make(chan string)
 			evs.Add(1)
 			go func(c chan string) {
+				c33sync()
+				defer c33sync()
 				defer evs.Done()
 				defer h.VerifC33Ctl("exit", nil)
 				defer c33recover()
@@ -427,6 +606,8 @@ func c33runScenarioBody(kind string, seed int64, procs, size int) (lines []strin
 		evalGo := make(chan struct{})
 		evalDone := make(chan struct{})
 		go func() {
+			c33sync()
+			defer c33sync()
 			defer close(evalDone)
 			defer h.VerifC33Ctl("exit", nil)
 			defer c33recover()
@@ -434,6 +615,8 @@ func c33runScenarioBody(kind string, seed int64, procs, size int) (lines []strin
 			env.eval("{ a := 1; inblock(); <-gate; add(a) }")
 		}()
 		go func() {
+			c33sync()
+			defer c33sync()
 			defer close(done)
 			defer h.VerifC33Ctl("exit", nil)
 			defer c33recover()
@@ -452,6 +635,8 @@ func c33runScenarioBody(kind string, seed int64, procs, size int) (lines []strin
 				res := make(chan bool)
 				rel := make(chan struct{})
 				go func() {
+					c33sync()
+					defer c33sync()
 					defer c33recover()
 					if h.VerifC33Ctl("goid", nil)[0] == creator {
 						f1(2)
@@ -484,9 +669,51 @@ func c33runScenarioBody(kind string, seed int64, procs, size int) (lines []strin
 		reg = c33hookOf(env.ir).VerifC33Ctl("registry", nil)
 	}
 	h.VerifC33Ctl("stop", nil)
-	tl, ttags := c33translate(ev, reg)
+	if silent {
+		// no events were logged: only the real registry can be inspected (gls[id].goid == id)
+		badReg := 0
+		for i := 0; i+2 < len(reg); i += 3 {
+			if reg[i] != reg[i+2] {
+				badReg++
+			}
+		}
+		if badReg == 0 {
+			lines = append(lines, "regcheck => ok")
+		} else {
+			lines = append(lines, fmt.Sprintf("regcheck => %d-entries-with-foreign-owner!", badReg))
+		}
+		ev = nil
+	}
+	var tl, ttags []string
+	if !silent {
+		tl, ttags = c33translate(ev, reg)
+	}
 	lines = append(lines, tl...)
 	tags = append(tags, ttags...)
+	if framesOn {
+		lines = append(lines, "frames => "+c33framesStop(c33ctlInterp))
+	}
+	if rep := c10newRaces(); rep != "" {
+		// C33 is about the registry and the per-goroutine Run/pool: only races whose accesses are in that code count
+		// here (races elsewhere in the interpreter are C10's business)
+		key, one := c10racePick(rep, func(fr []string) bool {
+			for _, f := range fr {
+				if c33reRegistry.MatchString(f) {
+					return true
+				}
+			}
+			return false
+		})
+		if key != "" {
+			lines = append(lines, "race => "+key+" #"+strconv.Itoa(len(c33raceText)))
+			c33raceText = append(c33raceText, one)
+		} else {
+			lines = append(lines, "race => none")
+			tags = append(tags, "race-elsewhere")
+		}
+	} else if os.Getenv("C10_RACE_LOG") != "" {
+		lines = append(lines, "race => none")
+	}
 	if reuse != "" {
 		tags = append(tags, reuse)
 	}
@@ -518,14 +745,18 @@ func c33funcs2(e *c33env) (leaf, clo, wd func(int) int, ok bool) {
 
 // go-statement children log their `del` after the interpreted function returned: wait for them
 func c33waitChildren(h c33Hook) bool {
-	for i := 0; ; i++ {
+	deadline := time.Now().Add(60 * time.Second) // generous: the machine may be heavily loaded
+	for d := 100 * time.Microsecond; ; {
 		if c33openChildren(h.VerifC33Ctl("events", nil)) == 0 {
 			return true
 		}
-		if i > 20000 {
+		if time.Now().After(deadline) {
 			return false
 		}
-		time.Sleep(100 * time.Microsecond)
+		time.Sleep(d)
+		if d < 20*time.Millisecond {
+			d *= 2
+		}
 	}
 }
 
@@ -756,10 +987,23 @@ func c33judge(body, real string) (string, string) {
 			key = "shared-run-after-toplevel-foreign"
 		}
 		return "two live goroutines allocate frames from the same Run: " + body + " -> " + real, key
-	case ev == "regdump" && strings.Contains(real, "!"):
+	case (ev == "regdump" || ev == "regcheck") && strings.Contains(real, "!"):
 		return "registry entry whose Run.goid differs from its key: " + real, "registry-entry-mismatch"
 	case ev == "goid" && real != "distinct constant":
 		return "gls.GoID(): " + real, "goid-" + strings.ReplaceAll(real, " ", "-")
+	case ev == "frames" && real != "ok":
+		key := "frame-from-foreign-pool"
+		if strings.HasPrefix(real, "live-twice") {
+			key = "frame-live-twice"
+		}
+		return "recycled frames are not private to one Run: " + real, key
+	case ev == "race" && real != "none":
+		key, idx, _ := strings.Cut(real, " #")
+		txt := ""
+		if i, err := strconv.Atoi(idx); err == nil && i < len(c33raceText) {
+			txt = c33raceText[i]
+		}
+		return "data race in the registry / frame-pool code reported during the scenario:\n" + truncate(txt, 3000), key
 	case ev == "error":
 		return "scenario failed: " + body, "scenario-error"
 	}
@@ -816,7 +1060,7 @@ func c33gen(r *rand.Rand, tier string, emit func(string)) {
 		n = 400
 	}
 	procsOf := []int{1, 2, 4, 16}
-	kinds := []string{"std", "std", "evalseq", "std", "reuse", "std", "goid", "std"}
+	kinds := []string{"std", "storm", "evalseq", "std", "reuse", "std", "goid", "std"}
 	for i := 0; i < n; i++ {
 		kind := kinds[i%len(kinds)]
 		seed := r.Int63n(1 << 40)
@@ -827,6 +1071,9 @@ func c33gen(r *rand.Rand, tier string, emit func(string)) {
 		}
 		if kind == "evalseq" {
 			size = 2 + r.Intn(6)
+		}
+		if kind == "storm" {
+			size = 8 + r.Intn(8)
 		}
 		emit(fmt.Sprintf("scn %s %d %d %d", kind, seed, procs, size))
 		lines, _ := c33runScenario(kind, seed, procs, size)
